@@ -1408,6 +1408,47 @@ fn validate_eval(req: &J) -> J {
     json!({"valid": true, "permissive": permissive, "decision": format!("{:?}", resp.decision()), "type_error": type_error, "error": errs.first()})
 }
 
+/// TPE over partial stores built three ways from the same entities (direct parents only) vs the concrete authorizer, on a fully concrete request
+fn tpe_store(req: &J) -> J {
+    use cedar_policy::{EntityUid, PartialEntities, PartialEntity, PartialEntityUid, PartialRequest, Schema, Context};
+    use std::collections::{BTreeMap, HashSet};
+    use std::str::FromStr;
+    let schema = match Schema::from_cedarschema_str(req["schema"].as_str().unwrap_or("")) { Ok(s) => s.0, Err(e) => return json!({"input_error": e.to_string()}) };
+    let pset = match PolicySet::from_str(req["policies"].as_str().unwrap_or("")) { Ok(p) => p, Err(e) => return json!({"input_error": e.to_string()}) };
+    let ents = match Entities::from_json_value(req["entities"].clone(), Some(&schema)) { Ok(e) => e, Err(e) => return json!({"input_error": e.to_string()}) };
+    let (p, a, r) = match (EntityUid::from_str(req["principal"].as_str().unwrap_or("")), EntityUid::from_str(req["action"].as_str().unwrap_or("")), EntityUid::from_str(req["resource"].as_str().unwrap_or(""))) {
+        (Ok(p), Ok(a), Ok(r)) => (p, a, r), _ => return json!({"input_error": "uids"}) };
+    let q = match Request::new(p.clone(), a.clone(), r.clone(), Context::empty(), Some(&schema)) { Ok(q) => q, Err(e) => return json!({"input_error": e.to_string()}) };
+    let concrete = format!("{:?}", Authorizer::new().is_authorized(&q, &pset, &ents).decision());
+    let preq = match PartialRequest::new(PartialEntityUid::from_concrete(p), a, PartialEntityUid::from_concrete(r), Some(Context::empty()), &schema) { Ok(q) => q, Err(e) => return json!({"input_error": e.to_string()}) };
+    let mut routes = serde_json::Map::new();
+    let mut run = |name: &str, pe: Result<PartialEntities, String>| {
+        let v = match pe {
+            Err(e) => format!("store error: {e}"),
+            Ok(pe) => match pset.tpe(&preq, &pe, &schema) {
+                Err(e) => format!("tpe error: {e}"),
+                Ok(resp) => match resp.decision() { Some(d) => format!("{d:?}"), None => "undecided".to_string() },
+            },
+        };
+        routes.insert(name.to_string(), json!(v));
+    };
+    // (1) from_partial_entities: each entity with the direct parents the caller listed
+    let mut list = vec![];
+    let mut bad = None;
+    for e in req["entities"].as_array().cloned().unwrap_or_default() {
+        let uid = EntityUid::from_type_name_and_id(e["uid"]["type"].as_str().unwrap_or("").parse().unwrap(), cedar_policy::EntityId::new(e["uid"]["id"].as_str().unwrap_or("")));
+        let parents: HashSet<EntityUid> = e["parents"].as_array().cloned().unwrap_or_default().iter()
+            .map(|x| EntityUid::from_type_name_and_id(x["type"].as_str().unwrap_or("").parse().unwrap(), cedar_policy::EntityId::new(x["id"].as_str().unwrap_or("")))).collect();
+        match PartialEntity::new(uid, Some(BTreeMap::new()), Some(parents), Some(BTreeMap::new()), &schema) { Ok(pe) => list.push(pe), Err(e) => bad = Some(e.to_string()) }
+    }
+    run("from_partial_entities", match bad { Some(e) => Err(e), None => PartialEntities::from_partial_entities(list, &schema).map_err(|e| e.to_string()) });
+    // (2) from_json_value with the same JSON
+    run("from_json_value", PartialEntities::from_json_value(req["entities"].clone(), &schema).map_err(|e| e.to_string()));
+    // (3) from_concrete
+    run("from_concrete", PartialEntities::from_concrete(ents.clone(), &schema).map_err(|e| e.to_string()));
+    json!({"concrete": concrete, "routes": routes})
+}
+
 fn handle(req: &J) -> J {
     match req["op"].as_str().unwrap_or("") {
         "eval" => eval(req),
@@ -1433,6 +1474,7 @@ fn handle(req: &J) -> J {
         "permission_query" => permission_query(req),
         "fuzzy" => fuzzy(req),
         "validate_eval" => validate_eval(req),
+        "tpe_store" => tpe_store(req),
         "manifest_slice" => manifest_slice(req),
         "est_print" => est_print(req),
         "ffi_convert" => ffi_convert(req),
